@@ -9,8 +9,10 @@ package c12
 
 import (
 	"encoding/binary"
+	"errors"
 	"fmt"
 	"os"
+	"strings"
 	"testing"
 
 	"github.com/alicebob/sqlittle"
@@ -299,6 +301,22 @@ func runBuilder(r *vt.Run, t vt.TB, s spec) {
 	// several pages): a list cut short is rows omitted
 	ops = append(ops, op{name: ".Tables()", run: func(d *sdb.Database) ([]string, error) { return d.Tables() }})
 	ops = append(ops, op{name: ".Indexes()", run: func(d *sdb.Database) ([]string, error) { return d.Indexes() }})
+	// the debugging summary lists the first rows of every table and index; a
+	// failure it meets is written into the text as an "error:" line, which
+	// counts as reported here
+	ops = append(ops, op{name: ".Info()", run: func(d *sdb.Database) ([]string, error) {
+		text, err := d.Info()
+		if err != nil {
+			return nil, err
+		}
+		lines := strings.Split(text, "\n")
+		for i, l := range lines {
+			if strings.HasPrefix(strings.TrimSpace(l), "error: ") {
+				return lines[:i], errors.New(strings.TrimSpace(l))
+			}
+		}
+		return lines, nil
+	}})
 	ops = append(ops, op{name: ".Table.Scan(t)", run: func(d *sdb.Database) ([]string, error) {
 		tab, err := d.Table("t")
 		if err != nil {
